@@ -16,8 +16,8 @@
 EXTENDS Gen, TLC, Json, IOUtils, FiniteSets
 
 CONSTANT MaxPress, Window, Which
-VARIABLES m, t, np, tfirst, entries, eff, lit, dropped, sched, watch, excused
-vars == <<m, t, np, tfirst, entries, eff, lit, dropped, sched, watch, excused>>
+VARIABLES m, t, np, tfirst, entries, eff, lit, dropped, sched, watch, excused, conts
+vars == <<m, t, np, tfirst, entries, eff, lit, dropped, sched, watch, excused, conts>>
 
 CounterCell == 144     \* 0x90
 Limit == 2500
@@ -27,7 +27,11 @@ Limit == 2500
 \* main: LDSP 0xEF; MOV (0xF9),1; EI; LD R0,200; LD R2,3; LD R1,3;
 \*   l: ADD R0,R0 (carry); ADC R2,R0; PUSH R2; CALL s; POP R2; LSR R0; PUSHF; POPF; MOV (0xFE),0x55; DEC R1; JZC l; DI; STOP;  s: ST (0xFF),R0; RET
 ProgInt2 == <<32, 10, 17, 255, 144, 17, 69, 241, 31, 144, 21, 44, 251, 239, 64, 251, 1, 31, 249, 8, 251, 200, 16, 251, 3, 18, 251, 3, 17, 96, 114, 18, 40, 47, 22, 56, 24, 28, 251, 85, 31, 254, 81, 38, 240, 12, 1, 240, 31, 255, 23>>
-Prog == IF Which = 1 THEN ProgInt ELSE ProgInt2
+\* third program: clears the key enable bit for a few instructions while IE stays set, pauses with STOP while interrupts are enabled
+\* (the continue key resumes it), then finishes:  ...; EI; LD R1,5; INC R2; MOV (0xF9),0; NOP; NOP; MOV (0xF9),1; NOP; STOP; INC R2; ADD R0,R2; PUSH R1; POP R1; DI; STOP
+ProgInt3 == <<32, 10, 16, 255, 144, 16, 68, 240, 31, 144, 20, 44, 251, 239, 64, 251, 1, 31, 249, 8, 251, 5, 17, 70, 251, 0, 31, 249, 2, 2, 251, 1, 31, 249, 2, 1, 70, 104, 17, 21, 12, 1>>
+Prog == CASE Which = 1 -> ProgInt [] Which = 2 -> ProgInt2 [] Which = 3 -> ProgInt3
+MaxCont == IF Which = 3 THEN 1 ELSE 0
 Start == SetInput(LoadF(MachineInit, Prog, 16, 255), 0, 3)
 
 IEnow(x) == (x.regs[4] \div 8) % 2 = 1
@@ -37,7 +41,7 @@ InWindowInsn(x) == x.ir \in (8..15) \cup (28..31) \cup (44..47) \cup (68..71) \/
                    \/ x.ir >= 240   \* the first byte of a two-byte form: the second byte may turn out to be LDFR
 Sampling(x) == ~x.wait /\ LET w == Word(x.maddr) IN MAC1(w) /\ MAC0(w) /\ NA0(w) /\ ~MAC2(w)
 
-Init == /\ m = Start /\ t = 0 /\ np = 0 /\ tfirst = -1 /\ entries = 0 /\ eff = 0 /\ lit = 0 /\ dropped = 0 /\ sched = <<>> /\ watch = FALSE /\ excused = 0
+Init == /\ m = Start /\ t = 0 /\ np = 0 /\ tfirst = -1 /\ entries = 0 /\ eff = 0 /\ lit = 0 /\ dropped = 0 /\ sched = <<>> /\ watch = FALSE /\ excused = 0 /\ conts = 0
 Edge == /\ m.st = "Running" /\ t < Limit
         /\ m' = EdgeF(m) /\ t' = t + 1
         /\ entries' = entries + (IF m'.maddr = 16 /\ m.maddr # 16 THEN 1 ELSE 0)
@@ -47,8 +51,9 @@ Edge == /\ m.st = "Running" /\ t < Limit
                cleared == watch /\ ~gone /\ ~IEnow(EdgeF(m))
            IN /\ watch' = (watch /\ ~gone /\ ~cleared)
               /\ excused' = excused + (IF cleared THEN 1 ELSE 0)
-        /\ UNCHANGED <<np, tfirst, eff, lit, sched>>
-Press == /\ m.st = "Running" /\ np < MaxPress
+        /\ UNCHANGED <<np, tfirst, eff, lit, sched, conts>>
+\* the key may also be pressed while the machine is paused by a STOP that the continue key will resume
+Press == /\ (m.st = "Running" \/ (m.st = "Stopped" /\ conts < MaxCont)) /\ np < MaxPress
          /\ np = 1 => t - tfirst <= Window /\ t > tfirst
          /\ m' = KeyIntF(m) /\ np' = np + 1
          /\ tfirst' = IF np = 0 THEN t ELSE tfirst
@@ -56,8 +61,11 @@ Press == /\ m.st = "Running" /\ np < MaxPress
          /\ lit' = lit + (IF KeyEdgeEnabled(m) /\ IEnow(m) /\ ~m.pei /\ ~InWindowInsn(m) THEN 1 ELSE 0)
          /\ sched' = Append(sched, t)
          /\ watch' = (watch \/ (KeyEdgeEnabled(m) /\ IEnow(m) /\ ~m.pei /\ ~InWindowInsn(m)))
-         /\ UNCHANGED <<t, entries, dropped, excused>>
-Next == Edge \/ Press
+         /\ UNCHANGED <<t, entries, dropped, excused, conts>>
+Cont == /\ m.st = "Stopped" /\ conts < MaxCont
+        /\ m' = ContinueF(m) /\ conts' = conts + 1 /\ sched' = Append(sched, -1 - t)     \* negative entry: continue key before edge t
+        /\ UNCHANGED <<t, np, tfirst, entries, eff, lit, dropped, watch, excused>>
+Next == Edge \/ Press \/ Cont
 
 \* ---- properties -----------------------------------------------------------------------------
 IntWordOf(a) == a % 2 = 1 /\ MAC3(Word(a - 1))        \* the "int:" sibling of a fetch word
@@ -67,7 +75,7 @@ EntryStep == [][m'.maddr = 16 /\ m.maddr # 16 => IntWordOf(m.maddr)]_vars
 \* never more entries than effective presses; a press with the enable bit clear never enters
 NoSpurious == entries + dropped <= eff /\ (eff = 0 => entries = 0)
 \* at the end: every literal press was served exactly once, nothing was served twice
-Stopped == m.st = "Stopped"
+Stopped == m.st = "Stopped" /\ conts = MaxCont          \* the final stop
 AtEnd ==
   Stopped =>
     /\ entries + dropped + B2N(m.pei) = eff          \* each effective press is consumed exactly once (entered, sampled with IE clear) or still pending
